@@ -504,6 +504,25 @@ static bool can_remove_braces(Chunk *bopen)
    LOG_FMT(LBRDEL, "%s(%d):  - end on '%s' on line %zu. if_count is %zu semi_count is %zu\n",
            __func__, __LINE__, get_token_name(pc->GetType()), pc->GetOrigLine(), if_count, semi_count);
 
+   if (  pc->Is(CT_BRACE_CLOSE)
+      && if_count > 0)
+   {
+      // an 'else' behind the brace would bind to an 'if' of the body (as in examine_brace)
+      Chunk *next = pc->GetNextNcNnl();
+
+      while (next->Is(CT_VBRACE_CLOSE))
+      {
+         next = next->GetNextNcNnl();
+      }
+
+      if (  next->Is(CT_ELSE)
+         || next->Is(CT_ELSEIF))
+      {
+         LOG_FMT(LBRDEL, "%s(%d):  bailed on because 'else' is next and %zu ifs\n",
+                 __func__, __LINE__, if_count);
+         return(false);
+      }
+   }
    return(  pc->Is(CT_BRACE_CLOSE)
          && pc->GetPpLevel() == bopen->GetPpLevel());
 } // can_remove_braces
